@@ -59,7 +59,40 @@ let verdict a =
   | VOk _ -> "true"
   | VRefused (c, e) -> Printf.sprintf "false %s %s" (name "a" c) (kind e)
 
+(* C19: the VTBs of ALT block [a] as the extracted honest miner [honest_vtbs] (Rules/C19HonestDefs.v) builds them from
+   (id, containing block, endorsed HEIGHT, block of proof) only, in the state of the theorem
+   C19_honest_block_accepted_full: after the ancestry of a's parent and a's VBK context *)
+let vtb_str (x : vtb) =
+  Printf.sprintf "%s %s %s %s" (name "v" x.w_endorsed) (name "v" x.w_containing) (name "b" x.w_conn)
+    (String.concat "," (List.map (name "b") x.w_bctx))
+let body_of x = match Hashtbl.find_opt pds x with Some b -> b | None -> empty_body
+let honest_rebuild a : vtb list option =
+  let pre = List.filter (fun x -> x <> a) (ancestry a []) in
+  let ch = List.map (fun x -> (zid x, body_of x)) pre in
+  match apply_chain (world ()) (params ()) st0 ch with
+  | VRefused _ -> None
+  | VOk s ->
+    let b = body_of a in
+    let s1 = { vknown = known_after s.vknown b.bd_ctx; brefs = s.brefs; vin = s.vin; seen = s.seen } in
+    let spec (w : vtb) =
+      let eh = match height_of !vbks w.w_endorsed with Some h -> h | None -> z_of_int (-1) in
+      let bop = match List.rev w.w_bctx with x :: _ -> x | [] -> w.w_conn in
+      { vs_id = w.w_id; vs_cont = w.w_containing; vs_eh = eh; vs_bop = bop } in
+    honest_vtbs (world ()) s1 (List.map spec b.bd_vtbs)
+let hvtbs a = match honest_rebuild a with
+  | None -> "none"
+  | Some ws -> if ws = [] then "-" else String.concat ";" (List.map vtb_str ws)
+let hverdict a = match honest_rebuild a with
+  | None -> "none"
+  | Some ws ->
+    let ch = List.map (fun x -> (zid x, (if x = a then { (body_of x) with bd_vtbs = ws } else body_of x))) (ancestry a []) in
+    (match apply_chain (world ()) (params ()) st0 ch with
+     | VOk _ -> "true"
+     | VRefused (c, e) -> Printf.sprintf "false %s %s" (name "a" c) (kind e))
+
 let handle op args = match op, args with
+  | "decl", ["hvtbs"; a] -> hvtbs a
+  | "decl", ["hverdict"; a] -> hverdict a
   | "begin", kv ->
     reset ();
     List.iter (fun s -> match String.split_on_char '=' s with
